@@ -1,5 +1,12 @@
 /* C11 / C13: nsync_wait_n over notes, counters and condition variables. */
+#include "nsync_cpp.h"
+#include "platform.h"
+#include "compiler.h"
+#include "cputype.h"
 #include "nsync.h"
+#include "dll.h"
+#include "sem.h"
+#include "wait_internal.h"
 #include "vf_api.h"
 #include <errno.h>
 
@@ -165,4 +172,32 @@ void final_ready_again (void) {
 	nsync_mu_lock (&mu);
 	nsync_cv_broadcast (&cv);
 	nsync_mu_unlock (&mu);
+}
+
+/* C11 (registration protocol, single thread): two records registered on the cv through the waitable interface; removing
+   the first (as nsync_wait_n does when it returns for another reason) must leave the second one reachable by a signal. */
+void h_cv_registration (void) {
+	struct nsync_waiter_s n1, n2;
+	nsync_semaphore s1, s2;
+	unsigned k = vf_nondet_nv ();
+	n1.tag = 0; n1.flags = 0; n1.sem = &s1; nsync_dll_init_ (&n1.q, &n1); *(unsigned *) &n1.waiting = 0;
+	n2.tag = 0; n2.flags = 0; n2.sem = &s2; nsync_dll_init_ (&n2.q, &n2); *(unsigned *) &n2.waiting = 0;
+	nsync_mu_semaphore_init (&s1); nsync_mu_semaphore_init (&s2);
+	vf_assert ((*nsync_cv_waitable_funcs.enqueue) (&cv, &n1) != 0);
+	vf_assert ((*nsync_cv_waitable_funcs.enqueue) (&cv, &n2) != 0);
+	if (k & 1) {
+		vf_assert ((*nsync_cv_waitable_funcs.dequeue) (&cv, &n1) != 0);     /* was still queued */
+		vf_assert (*(unsigned *) &n1.waiting == 0);
+		nsync_cv_signal (&cv);                                              /* must reach the remaining record */
+		vf_assert (*(unsigned *) &n2.waiting == 0);
+		vf_assert ((*nsync_cv_waitable_funcs.dequeue) (&cv, &n2) == 0);     /* already woken: not queued any more */
+	} else {
+		vf_assert ((*nsync_cv_waitable_funcs.dequeue) (&cv, &n2) != 0);
+		nsync_cv_broadcast (&cv);
+		vf_assert (*(unsigned *) &n1.waiting == 0);
+		vf_assert ((*nsync_cv_waitable_funcs.dequeue) (&cv, &n1) == 0);
+	}
+	/* nothing is left registered: the cv is empty again and a further signal is a no-op */
+	vf_assert (cv.waiters == 0);
+	nsync_cv_signal (&cv);
 }
